@@ -14,15 +14,15 @@ import tlaval
 from vlib import Infra, go_test, log, monitor, report, tlc, tlc_require_ok, trace_of
 
 
-def cfg(depth, named, hard="TRUE", nofollow="TRUE"):
+def cfg(depth, named, hard="TRUE", nofollow="TRUE", view="view"):
     return ("CONSTANTS Depth = %d\n FixHardLink = %s\n FixNoFollow = %s\n FixNamed = TRUE\n Named = %s\nSPECIFICATION Spec\nINVARIANT OutsideUnchanged\n"
-            "VIEW view\nCHECK_DEADLOCK FALSE\n") % (depth, hard, nofollow, named)
+            "VIEW %s\nCHECK_DEADLOCK FALSE\n") % (depth, hard, nofollow, named, view)
 
 
-def explore(ctx, depth, named, name):
+def explore(ctx, depth, named, name, view="view"):
     """Runs TLC on TarExtract and returns the reachable states as replayable cases."""
     dump = os.path.join(ctx.sub("dump"), name)
-    r = tlc(ctx, "TarExtract", cfg(depth, named), workers=os.cpu_count() or 4, timeout=2400, heap="12g",
+    r = tlc(ctx, "TarExtract", cfg(depth, named, view=view), workers=os.cpu_count() or 4, timeout=2400, heap="12g",
             name="L1-" + name, extra=["-dump", dump])
     tlc_require_ok(r)
     ctx.l1.append({k: r[k] for k in ("name", "module", "generated", "distinct", "wall_s")})
@@ -44,8 +44,37 @@ def explore(ctx, depth, named, name):
         if not outside_ok:
             unsafe += 1
         cases.append({"id": len(cases) + 1, "hist": st["hist"], "failed": st["failed"], "tree": tree,
-                      "model_outside_ok": outside_ok})
+                      "model_outside_ok": outside_ok, "risk": st.get("risk", []), "nomodel": False})
     return cases, unsafe
+
+
+def E(k, name, tg=None, nabs=False, tabs=False):
+    return {"k": k, "name": name, "nabs": nabs, "tg": tg or [], "tabs": tabs}
+
+
+def followups(cases):
+    """For every enumerated tree that holds a symbolic link resolving outside of the working directory: the same
+    sequence followed by one more entry / push that goes at or through that link (no model prediction attached)."""
+    out, seen = [], set()
+    for c in cases:
+        if c["failed"] or not c.get("risk"):
+            continue
+        for p in c["risk"]:
+            if p[:1] != ["w"]:
+                continue
+            rel = p[1:]
+            more = [E("reg", rel), E("dir", rel), E("dir", rel + ["x", "y"]), E("dir", rel + ["x"]), E("reg", rel + ["x"]),
+                    E("reg", rel + ["v"]), E("named", rel), E("named", rel + ["v"]), E("named", rel + ["x", "y"]),
+                    E("hard", ["d", "a"], tg=rel + ["v"]), E("hard", ["d", "a"], tg=["d"] + rel[1:] + ["v"]),
+                    E("sym", rel + ["x"], tg=["v"])]
+            for e in more:
+                h = c["hist"] + [e]
+                k = json.dumps(h)
+                if k in seen:
+                    continue
+                seen.add(k)
+                out.append({"hist": h, "failed": False, "tree": [], "nomodel": True})
+    return out
 
 
 def run(ctx, replay=None):
@@ -64,6 +93,22 @@ def run(ctx, replay=None):
                 c["id"] = len(cases) + 1
                 cases.append(c)
         unsafe += u2
+        # every rejected entry on every tree of depth <= 2 (a rejected entry leaves the tree unchanged and is
+        # otherwise collapsed by the VIEW)
+        c3, u3 = explore(ctx, 2, "TRUE", "TarExtract-rejected-D2", view="viewr")
+        seen = {json.dumps(c["hist"]) for c in cases}
+        for c in c3:
+            if json.dumps(c["hist"]) not in seen:
+                c["id"] = len(cases) + 1
+                cases.append(c)
+        fu = followups([c for c in cases if len(c["hist"]) <= 3])
+        if ctx.quick and len(fu) > 5000:
+            import random
+            fu = random.Random(ctx.seed).sample(fu, 5000)
+        for c in fu:
+            c["id"] = len(cases) + 1
+            cases.append(c)
+        log("  %d follow-up entries appended to trees that hold an escaping link" % len(fu))
         if unsafe:
             log("  L1: the model itself admits %d states in which an outside object changed (replayed below)" % unsafe)
     cf = os.path.join(ctx.sub("cases"), "cases.json")
@@ -87,7 +132,7 @@ def run(ctx, replay=None):
         seen.add((v["inv"], v["t"]))
         rec = trace_of(v["file"], v["t"], 2)[0]
         c = byid[v["t"]]
-        sc = {"id": c["id"], "hist": c["hist"], "failed": c["failed"], "tree": c["tree"]}
+        sc = {"id": c["id"], "hist": c["hist"], "failed": c["failed"], "tree": c["tree"], "nomodel": c.get("nomodel", False)}
         report(ctx, "tar-sequence", v["inv"], sc, [rec],
                what="%s: %s -> outside: %s" % (v["inv"], json.dumps([[e["k"], "/".join(e["name"]), "/".join(e["tg"])]
                                                                       for e in c["hist"]]), rec["outside"]))
@@ -98,7 +143,7 @@ def run(ctx, replay=None):
                 "TarExtract.tla, enumerated by TLC) replayed into a real file store in a sandbox; non-trivial = at least "
                 "two entries",
         "traces_validated_against_impl": summ["cases"],
-        "samples": [trace_of(summ["files"][0], cases[len(cases) // 2]["id"], 2)[0]] if cases else [],
+        "samples": trace_of(summ["files"][0], cases[0]["id"], 2)[:1] + trace_of(summ["files"][0], cases[min(5, len(cases) - 1)]["id"], 2)[:1],
         "exhaustive": True,
         "impl_conformance": {"conforms": nonconf == 0, "differing_states": nonconf},
         "model_states_with_outside_change": unsafe,
